@@ -192,7 +192,7 @@ theorem gtail_good (hK : QW2 K) (sets : Option (List (List Expr))) (cube rollup 
   · exact hR.2 x hx
 
 theorem cl_group (hK : QW2 K) (gb : Option GroupBy)
-    (hne : ∀ sets cube rollup, gb ≠ some (.mk [] sets cube rollup) ∨ sets ≠ none)
+    (hne : ∀ cols sets cube rollup, gb = some (.mk cols sets cube rollup) → cols ≠ [] ∨ sets ≠ none)
     (hcols : ∀ cols sets cube rollup, gb = some (.mk cols sets cube rollup) → ∀ e ∈ cols, GE4 d K e)
     (hsets : ∀ cols l cube rollup, gb = some (.mk cols (some l) cube rollup) → ∀ g ∈ l, (∀ e ∈ g, GE4 d K e) ∧ (∀ e, g = [e] → setElemOK e = true)) :
     CL K (PR.prOptGroup d gb) (group4LL d gb) (toksGroup4 d noX gb) := by
@@ -209,7 +209,7 @@ theorem cl_group (hK : QW2 K) (gb : Option GroupBy)
       | cons e es => exact lx_pc (lx_args8 (e :: es) hc) t1
       | nil =>
         have hs : sets ≠ none := by
-          rcases hne sets cube rollup with h | h
+          rcases hne [] sets cube rollup rfl with h | h
           · exact absurd rfl h
           · exact h
         have hp : gtailPieces d sets cube rollup ≠ [] := by
@@ -259,6 +259,126 @@ theorem cl_group (hK : QW2 K) (gb : Option GroupBy)
       subst hx
       rw [groupL_eq]
       exact K.sp (K.word "GROUP" (mem_cw (by simp [clauseWords]))) (K.sp (K.word "BY" (mem_cw (by simp [clauseWords]))) qkeys)
+
+/-! ## the SELECT -/
+
+/-- **the record of a single SELECT** from the records of its thirteen clauses; `hG1` / `hG2`: the printer's dialect guards -/
+theorem gs_select (dist : Bool) (cols : List (Expr × Option String)) (fr : Option (List FromTable)) (lats : List Lateral) (js : List Join)
+    (wh : Option Expr) (gb : Option GroupBy) (hv : Option Expr) (ob sb : Option (List OrderItem)) (db cb : Option (List Expr))
+    (lm : Option (Int × Option Int))
+    (hG1 : (sb.isSome || db.isSome || cb.isSome) = true → d = .HIVE) (hG2 : lats ≠ [] → d = .HIVE ∨ d = .DEFAULT)
+    (hcols : Lx (joinLL [',', ' '] (prCols4LL d cols)) (toksCols4 d noX cols) ∧
+      PR.prCols d cols = .ok ((prCols4LL d cols).map String.ofList) ∧ K.Q (joinLL [',', ' '] (prCols4LL d cols)))
+    (cfr : CL K (PR.prOptFrom d fr) (from4LL d fr) (toksFrom4 d noX fr))
+    (clt : CL K (PR.prLateralList d lats) (lats4LL d lats) (toksLats4 d noX lats))
+    (cjs : CL K (PR.prJoinList d js) (joins4LL d js) (toksJoins4 d noX js))
+    (cwh : CL K (PR.prOptWhere d wh) (opt4LL d "WHERE" wh) (toksOptE4 d noX "WHERE" wh))
+    (cgb : CL K (PR.prOptGroup d gb) (group4LL d gb) (toksGroup4 d noX gb))
+    (chv : CL K (PR.prOptHaving d hv) (opt4LL d "HAVING" hv) (toksOptE4 d noX "HAVING" hv))
+    (cob : CL K (PR.prOptOrder d ob) (order4LL d "ORDER" ob) (toksOrder4 d noX ob))
+    (csb : CL K (PR.prOptSort d sb) (order4LL d "SORT" sb) (toksSort4 d noX sb))
+    (cdb : CL K (PR.prOptDistribute d db) (by4LL d "DISTRIBUTE" db) (toksBy4 d noX "DISTRIBUTE" db))
+    (ccb : CL K (PR.prOptCluster d cb) (by4LL d "CLUSTER" cb) (toksBy4 d noX "CLUSTER" cb))
+    (clm : CL K (.ok ((limitC lm).map fun p => String.ofList p.1)) ((limitC lm).map (·.1)) (toksLimit lm)) :
+    GS4 d K (.mk (some []) dist cols fr lats js wh gb hv ob sb db cb lm) := by
+  have e4 : ("DISTINCT " : String).toList = "DISTINCT".toList ++ [' '] := rfl
+  have hsel : Lx ("SELECT".toList ++ ' ' :: ((if dist then "DISTINCT ".toList else []) ++ joinLL [',', ' '] (prCols4LL d cols)))
+      (opTok "SELECT" :: ((if dist then [opTok "DISTINCT"] else []) ++ toksCols4 d noX cols)) := by
+    cases dist with
+    | false =>
+      simp only [Bool.false_eq_true, ↓reduceIte, List.nil_append]
+      exact lx_kwThen "SELECT" (by simp [clauseWords]) hcols.1
+    | true =>
+      simp only [↓reduceIte]
+      rw [e4]
+      exact Lx.congr (lx_kwThen "SELECT" (by simp [clauseWords]) (lx_kwThen "DISTINCT" (by simp [clauseWords]) hcols.1))
+        (by simp only [List.append_assoc, List.singleton_append]) rfl
+  have qsel : K.Q ("SELECT".toList ++ ' ' :: ((if dist then "DISTINCT ".toList else []) ++ joinLL [',', ' '] (prCols4LL d cols))) := by
+    cases dist with
+    | false =>
+      simp only [Bool.false_eq_true, ↓reduceIte, List.nil_append]
+      exact K.sp (K.word "SELECT" (mem_cw (by simp [clauseWords]))) hcols.2.2
+    | true =>
+      simp only [↓reduceIte]
+      rw [e4]
+      have := K.sp (K.word "SELECT" (mem_cw (by simp [clauseWords]))) (K.sp (K.word "DISTINCT" (mem_cw (by simp [clauseWords]))) hcols.2.2)
+      simpa only [List.append_assoc, List.singleton_append] using this
+  have r10 := CL.append ccb clm
+  have s9 := Seg.append nl cdb.seg r10.1
+  have s8 := Seg.append nl csb.seg s9
+  have s7 := Seg.append nl cob.seg s8
+  have s6 := Seg.append nl chv.seg s7
+  have s5 := Seg.append nl cgb.seg s6
+  have s4 := Seg.append nl cwh.seg s5
+  have s3 := Seg.append nl cjs.seg s4
+  have s2 := Seg.append nl clt.seg s3
+  have s1 := Seg.append nl cfr.seg s2
+  have s0 := Seg.cons nl hsel s1
+  refine ⟨?_, ?_, ?_⟩
+  · exact Lx.congr (s0.lx (List.cons_ne_nil _ _)) (by simp only [prS4L]) (by simp only [toksS4, List.cons_append, List.append_assoc])
+  · have e_guard : PR.prSGuard d lats sb db cb = .ok () := by
+      unfold PR.prSGuard
+      have h1 : (d != Gen.D.HIVE && (sb.isSome || db.isSome || cb.isSome)) = false := by
+        cases hb : (sb.isSome || db.isSome || cb.isSome) with
+        | false => simp
+        | true => rw [hG1 hb]; rfl
+      have h2 : (!(d == Gen.D.HIVE || d == Gen.D.DEFAULT) && !lats.isEmpty) = false := by
+        cases lats with
+        | nil => simp
+        | cons a b => rcases hG2 (by simp) with h | h <;> rw [h] <;> rfl
+      simp only [h1, h2, Bool.false_eq_true, if_false]
+    have e_hive : PR.prHive d sb db cb =
+        .ok ((order4LL d "SORT" sb ++ (by4LL d "DISTRIBUTE" db ++ by4LL d "CLUSTER" cb)).map String.ofList) := by
+      unfold PR.prHive
+      by_cases hd : d = .HIVE
+      · subst hd
+        simp only [beq_self_eq_true, if_true, csb.pr, cdb.pr, ccb.pr, bind, Except.bind, pure, Except.pure, List.map_append, List.append_assoc]
+      · have hb : (sb.isSome || db.isSome || cb.isSome) = false := by
+          cases hb : (sb.isSome || db.isSome || cb.isSome) with
+          | false => rfl
+          | true => exact absurd (hG1 hb) hd
+        have hne : (d == Gen.D.HIVE) = false := by simpa using hd
+        simp only [Bool.or_eq_false_iff, Option.isSome_eq_false_iff, Option.isNone_iff_eq_none] at hb
+        obtain ⟨⟨rfl, rfl⟩, rfl⟩ := hb
+        simp [hne, order4LL, by4LL]
+        rfl
+    have hlim : ∀ pr, [(PR.limitSrc pr).toList] = (limitC (some pr)).map (·.1) := by
+      intro pr
+      have := congrArg (List.map String.toList) (limit_eq (some pr))
+      simpa [List.map_map, Function.comp_def, String.toList_ofList] using this
+    have hlim0 : (limitC none).map (·.1) = [] := rfl
+    have e0 : ("" : String).toList = [] := rfl
+    have hhead : (PR.joinS " " ("SELECT" :: ((if dist = true then ["DISTINCT"] else []) ++
+        [PR.joinS ", " (List.map String.ofList (prCols4LL d cols))]))).toList =
+        "SELECT".toList ++ ' ' :: ((if dist then "DISTINCT ".toList else []) ++ joinLL [',', ' '] (prCols4LL d cols)) := by
+      rw [toList_joinS]
+      cases dist <;> simp [joinLL, toList_joinS, map_map_ofList]
+    rw [PR.prS_eq]
+    cases lm <;>
+    · simp only [PR.prWithPrefix, List.isEmpty_nil, if_true, PR.ok_bind, e_guard, PR.prSRest, hcols.2.1, cfr.pr, clt.pr, cjs.pr,
+        cwh.pr, cgb.pr, chv.pr, cob.pr, e_hive, bind, Except.bind, pure, Except.pure]
+      refine ok_ofList ?_
+      rw [String.toList_append, e0, List.nil_append, toList_joinS]
+      simp only [prS4L]
+      congr 1
+      simp only [List.map_append, List.map_cons, List.map_nil, map_map_ofList, List.append_assoc, List.cons_append, List.nil_append,
+        hlim, hlim0, hhead, List.append_nil]
+  · simp only [prS4L]
+    refine K.joinLL1 '\n' K.s_nl _ fun x hx => ?_
+    simp only [List.mem_cons, List.mem_append] at hx
+    rcases hx with rfl | hx | hx | hx | hx | hx | hx | hx | hx | hx | hx | hx
+    · exact qsel
+    · exact cfr.q x hx
+    · exact clt.q x hx
+    · exact cjs.q x hx
+    · exact cwh.q x hx
+    · exact cgb.q x hx
+    · exact chv.q x hx
+    · exact cob.q x hx
+    · exact csb.q x hx
+    · exact cdb.q x hx
+    · exact ccb.q x hx
+    · exact clm.q x hx
 
 end
 end LL2
